@@ -1,8 +1,404 @@
 import Karp.Driver.Proto
+import Karp.Model.Candidate
+import Karp.Spec.Protected
+import Karp.Model.CandidateHistory
+import Karp.Spec.ProtectedHistory
 
 namespace Karp.Driver.C07
-open Lean Karp.Driver
+open Lean Karp.Driver Karp.Candidate
 
-def handle : Handler := fun op _ _ => .error s!"unknown op {op}"
+/-! ## JSON → vocabulary -/
+
+def parseAnn (j : Json) : Except String Ann := do
+  match (← strF j "k") with
+  | "none" | "" => pure .none
+  | "true" => pure .true_
+  | "dur" => pure (.dur (← intF j "ns"))
+  | "bad" => pure .bad
+  | k => throw s!"bad annotation kind {k}"
+
+def annD (j : Json) (k : String) : Except String Ann :=
+  match fldOpt j k with
+  | none => pure .none
+  | some v => parseAnn v
+
+def parseLbl (s : String) : Lbl :=
+  if s = "" then .absent else if s = "true" then .true_ else .other
+
+def parseCond (s : String) : Except String Cond :=
+  match s with
+  | "" => pure .absent
+  | "True" => pure .true_
+  | "False" => pure .false_
+  | "Unknown" => pure .unknown
+  | _ => throw s!"bad condition status {s}"
+
+def strD (j : Json) (k : String) : Except String String :=
+  match fldOpt j k with
+  | none => pure ""
+  | some v => asStr v
+
+def parseMeta (j : Json) : Except String Meta := do
+  let pool ← match (← strD j "pool") with
+    | "" => pure PoolRef.none
+    | "this" => pure PoolRef.this
+    | "ghost" => pure PoolRef.ghost
+    | s => throw s!"bad pool {s}"
+  let it ← match (← strD j "it") with
+    | "" => pure ItRef.none
+    | "known" => pure ItRef.known
+    | "unknown" => pure ItRef.unknown
+    | s => throw s!"bad it {s}"
+  pure { dnd := ← annD j "dnd", pool := pool, it := it, ct := ← boolD j "ct" false, zone := ← boolD j "zone" false }
+
+def parseNode (j : Json) : Except String Node := do
+  pure { md := ← parseMeta j, init := parseLbl (← strD j "init"), reg := parseLbl (← strD j "reg"),
+         deleting := ← boolD j "deleting" false }
+
+def parseClaim (j : Json) : Except String Claim := do
+  pure { md := ← parseMeta j,
+         deleting := ← boolD j "deleting" false,
+         terminating := ← parseCond (← strD j "terminating"),
+         tgp := ← boolD j "tgp" false,
+         drifted := ← parseCond (← strD j "drifted"),
+         consolidatable := ← parseCond (← strD j "consolidatable"),
+         initialized := ← parseCond (← strD j "initialized"),
+         initAt := (← intO j "initAt").getD 0,
+         lastPodEvent := ← intO j "lastPodEvent" }
+
+def parsePolicy (s : String) : Except String Policy :=
+  match s with
+  | "WhenEmpty" => pure .whenEmpty
+  | "WhenEmptyOrUnderutilized" => pure .whenEmptyOrUnderutilized
+  | "Balanced" => pure .balanced
+  | _ => throw s!"bad policy {s}"
+
+def parsePool (j : Json) : Except String Pool := do
+  pure { present := ← boolD j "exists" false, managed := ← boolD j "managed" false, static := ← boolD j "static" false,
+         consolidateAfter := ← intO j "consolidateAfter", policy := ← parsePolicy (← strF j "policy"),
+         hasITs := ← boolD j "hasITs" false }
+
+def parseTol (s : String) : Except String Tol :=
+  match s with
+  | "" | "none" => pure .none
+  | "key-exists" => pure .keyExists
+  | "key-equal" => pure .keyEqual
+  | "all" => pure .all
+  | "other-key" => pure .otherKey
+  | "key-noexecute" => pure .keyNoExecute
+  | "key-noschedule" => pure .keyNoSchedule
+  | _ => throw s!"bad toleration {s}"
+
+def parsePod (j : Json) : Except String Pod := do
+  let phase ← strF j "phase"
+  let terminal ← match phase with
+    | "Running" | "Pending" => pure false
+    | "Succeeded" | "Failed" => pure true
+    | _ => throw s!"bad phase {phase}"
+  pure { onNode := ← boolD j "onNode" false, ns := (← natO j "ns").getD 0, app := ← natO j "app",
+         terminal := terminal, terminating := ← boolD j "terminating" false,
+         daemon := ← boolD j "daemon" false, mirror := ← boolD j "mirror" false, sts := ← boolD j "sts" false,
+         tol := ← parseTol (← strD j "tol"), dnd := ← annD j "dnd", start := ← intO j "start",
+         notReady := ← boolD j "notReady" false, delCost := ← intO j "delCost", prio := ← intO j "prio" }
+
+def parsePdb (j : Json) : Except String Pdb := do
+  let sel ← match (← strF j "sel") with
+    | "nil" => pure Sel.nothing
+    | "all" => pure Sel.everything
+    | "app" => pure (Sel.app (← natF j "app"))
+    | s => throw s!"bad selector {s}"
+  let allowed ← intF j "allowed"
+  if allowed < 0 then throw "negative disruptionsAllowed is outside the model"
+  pure { ns := (← natO j "ns").getD 0, sel := sel, allowed := allowed.toNat, alwaysAllow := ← boolD j "alwaysAllow" false }
+
+def optObj (j : Json) (k : String) (f : Json → Except String α) : Except String (Option α) :=
+  match fldOpt j k with
+  | none => pure none
+  | some v => do pure (some (← f v))
+
+def parseWorld (j : Json) : Except String World := do
+  pure { now := ← intF j "now", batchMax := ← intF j "batchMax",
+         claim := ← optObj j "claim" parseClaim, node := ← optObj j "node" parseNode,
+         marked := ← boolD j "marked" false, nominatedAt := ← intO j "nominatedAt",
+         inQueue := ← boolD j "inQueue" false, buffer := (← natO j "buffer").getD 0,
+         pool := ← parsePool (← fld j "pool"),
+         pods := ← (← arrD j "pods").mapM parsePod, pdbs := ← (← arrD j "pdbs").mapM parsePdb }
+
+/-! ## vocabulary → JSON (canonical output, the shape of the Go `CandOut`) -/
+
+def condStr : Cond → String
+  | .absent => ""
+  | .true_ => "True"
+  | .false_ => "False"
+  | .unknown => "Unknown"
+
+def verdictStr : CandVerdict → String
+  | .ok => "ok"
+  | .podBlocked => "pod-blocked"
+  | .blocked => "blocked"
+
+def okBlocked (b : Bool) : String := if b then "ok" else "blocked"
+
+/-- the world after the optional run of the nodeclaim.disruption controller -/
+def applyReconcile (w : World) (reconcile : Bool) : World :=
+  if reconcile then { w with claim := w.claim.map (fun c => reconcileClaim w.pool c w.now) } else w
+
+def modelOut (w : World) : Json :=
+  let sn := stateNode w
+  let methods := Method.all
+  let base : List (String × Json) :=
+    [ ("tracked", jBool sn.isSome),
+      ("hasNode", jBool (match sn with | some s => s.node.isSome | none => false)),
+      ("consolidatable", jStr (match w.claim with | some c => condStr c.consolidatable | none => "")) ]
+  match sn with
+  | none =>
+    jObj (base ++ [("node", jStr ""), ("pods", jStr ""), ("cand", jObj []), ("class", jObj []), ("sel", jObj []), ("get", jObj [])])
+  | some s =>
+    let sel := jObj (methods.map (fun m => (m.name, jBool (selected w m))))
+    jObj (base ++
+      [ ("node", jStr (okBlocked (s.validateNode w.now))),
+        ("pods", jStr (okBlocked (s.validatePods w.now w.pods w.pdbs))),
+        ("cand", jObj [ (Class.graceful.name, jStr (verdictStr (newCandidate w .graceful))),
+                        (Class.eventual.name, jStr (verdictStr (newCandidate w .eventual))) ]),
+        ("class", jObj (methods.map (fun m => (m.name, jStr (classOf m).name)))),
+        ("sel", sel),
+        ("get", sel) ])
+
+/-! ## the property evaluated on what the implementation did -/
+
+open Karp.Spec.Protected in
+/-- every violation of the specification by the implementation's output `impl`, as text -/
+def specViolations (w : World) (impl : Json) : Except String (List String) := do
+  if !wellFormed w then return []     -- outside the specification's lifecycle hypothesis: model equality only
+  let mut bad : List String := []
+  let tracked := (← boolD impl "tracked" false)
+  if !tracked then return []
+  let blockers : String :=
+    s!"[unmanaged={unmanaged w} uninitialized={uninitialized w} deleting={deleting w} nominated={recentlyNominated w} nodeDnd={nodeDoNotDisrupt w} podDnd={podDoNotDisrupt w} pdb={pdbBlocks w} tgp={hasTGP w}]"
+  -- the per-method selections, both through NewCandidate+ShouldDisrupt and through GetCandidates
+  for key in ["sel", "get"] do
+    match fldOpt impl key with
+    | none => pure ()
+    | some o =>
+      for m in Method.all do
+        match fldOpt o m.name with
+        | none => pure ()
+        | some v =>
+          if (← asBool v) && !allowed w m then
+            let why :=
+              if nodeLevelBlocker w then "a node-level blocker is present"
+              else if podLevelBlocker w && !mayOverride w m then "a pod-level blocker is present and the method may not override it"
+              else "a consolidation requirement is not met"
+            bad := bad ++ [s!"{key}.{m.name}: selected although {why} {blockers} [consolidatable={consolidatable w} static={w.pool.static} enabled={w.pool.consolidateAfter.isSome} empty={empty w}]"]
+  -- NewCandidate per class
+  match fldOpt impl "cand" with
+  | none => pure ()
+  | some o =>
+    for (cls, ev) in [(Class.graceful, false), (Class.eventual, true)] do
+      match fldOpt o cls.name with
+      | none => pure ()
+      | some v =>
+        if (← asStr v) == "ok" && !candidateAllowed w ev then
+          bad := bad ++ [s!"cand.{cls.name}: NewCandidate succeeded for a protected node {blockers}"]
+  -- the two validators
+  if (← strD impl "node") == "ok" && (uninitialized w || deleting' w || recentlyNominated w || nodeDoNotDisrupt w || w.claim.isNone) then
+    bad := bad ++ [s!"node: ValidateNodeDisruptable accepted a protected node {blockers}"]
+  if (← boolD impl "hasNode" false) && (← strD impl "pods") == "ok" && podLevelBlocker w then
+    bad := bad ++ [s!"pods: ValidatePodsDisruptable accepted a node with a pod-level blocker {blockers}"]
+  return bad
+where
+  /-- deletion as far as the StateNode alone can know it (the queue is checked by NewCandidate) -/
+  deleting' (w : World) : Bool :=
+    w.marked || (match w.claim with | some c => c.deleting || c.terminating == .true_ | none => false)
+
+def candidate (inp impl : Json) : Except String Resp := do
+  let w0 ← parseWorld inp
+  let reconcile ← boolD inp "reconcile" false
+  let w := applyReconcile w0 reconcile
+  let mut bad ← specViolations w impl
+  -- "Consolidatable (consolidateAfter elapsed since the last pod event)": when the real controller has just
+  -- maintained the condition, True is only allowed if the window has elapsed
+  if reconcile then
+    match w0.claim with
+    | some c =>
+      let ran := !c.deleting && c.md.pool == .this && w0.pool.present
+      if ran && !w0.pool.static && (← strD impl "consolidatable") == "True"
+          && !Karp.Spec.Protected.mayBeConsolidatable w0.pool c w0.now then
+        bad := bad ++ ["consolidatable: the nodeclaim.disruption controller set Consolidatable=True although consolidateAfter has not elapsed since the last pod event (or the NodeClaim is not initialized / consolidation is disabled)"]
+    | none => pure ()
+  pure { model := some (modelOut w), spec := some bad.isEmpty, why := "; ".intercalate bad }
+
+/-! ## c07.history -/
+
+def parseEv (j : Json) : Except String Ev := do
+  match (← strF j "k") with
+  | "tick" => pure (.tick (← natF j "d"))
+  | "claim" => pure (.claim (← optObj j "claim" parseClaim))
+  | "node" => pure (.node (← optObj j "node" parseNode))
+  | "mark" => pure .mark
+  | "unmark" => pure .unmark
+  | "nominate" => pure .nominate
+  | "podEvent" => pure .podEvent
+  | "reconcile" => pure .reconcile
+  | k => throw s!"bad event {k}"
+
+open Karp.Spec.ProtectedHistory in
+def history (inp impl : Json) : Except String Resp := do
+  let start ← intF inp "start"
+  let env : World :=
+    { now := start, batchMax := ← intF inp "batchMax", claim := none, node := none, marked := false,
+      nominatedAt := none, inQueue := false, buffer := 0, pool := ← parsePool (← fld inp "pool"),
+      pods := ← (← arrD inp "pods").mapM parsePod, pdbs := ← (← arrD inp "pdbs").mapM parsePdb }
+  let evs ← (← arrF inp "events").mapM parseEv
+  let model := hobserve env { now := start, sn := none } evs
+  -- the property on what the implementation selected, step by step, against the LOG semantics of the specification
+  let implRows ← match fldOpt impl "sel" with
+    | some v => listOf boolList v
+    | none => throw "implementation produced no selections"
+  let rec go (l : Log) (evs : List Ev) (rows : List (List Bool)) (i : Nat) (bad : List String) : List String :=
+    match evs, rows with
+    | e :: es, row :: rs =>
+      let l' := specStep env.pool l e
+      let bad' := (Method.all.zip row).foldl (fun acc (m, sel) =>
+        if sel && Karp.Spec.Protected.wellFormed (l'.world env) && !allowedAfter env l' m then
+          acc ++ [s!"after event {i}: {m.name} selects the node although the log says it is protected (marked={l'.marked} recentlyNominated={l'.recentlyNominated (Karp.Spec.Protected.window env)} tracked={l'.tracked} allowed={Karp.Spec.Protected.allowed (l'.world env) m})"]
+        else acc) bad
+      go l' es rs (i + 1) bad'
+    | _, _ => bad
+  let bad := go { now := start } evs implRows 0 []
+  let lenOk := implRows.length == evs.length
+  pure { model := some (jObj [("sel", jArr (model.map (fun r => jArr (r.map jBool))))]),
+         spec := some (bad.isEmpty && lenOk),
+         why := if lenOk then "; ".intercalate (bad.take 3) else "implementation reported a different number of steps" }
+
+/-! ## leaf ops -/
+
+/-- one-directional check: whenever the specification's predicate `premise` holds, the implementation's answer for
+    `k` must be `want` (the property is a safety property: being more protective than required is allowed) -/
+def checkImplies (impl : Json) (k : String) (premise : Bool) (want : Bool) (what : String) : Except String (List String) := do
+  match fldOpt impl k with
+  | none => pure [s!"{k}: missing in the implementation output"]
+  | some v =>
+    let got ← asBool v
+    pure (if premise && got != want then [s!"{k}: implementation says {got} although {what}"] else [])
+
+open Karp.Spec.Protected in
+def podOp (inp impl : Json) : Except String Resp := do
+  let now ← intF inp "now"
+  let p ← parsePod (← fld inp "pod")
+  let model := jObj [
+    ("active", jBool (isActive p)), ("reschedulable", jBool (isReschedulable p)),
+    ("evictable", jBool (isEvictable now p)), ("disruptable", jBool (isDisruptable now p)),
+    ("dndActive", jBool (dndActive now p)), ("dndActiveNilRecorder", jBool (dndActive now p)),
+    ("tolerates", jBool p.tol.tolerates), ("costPositive", jBool (costPositive p))]
+  -- the specification's reading of the same words, in the direction that protects
+  let act := annotationActive now p
+  let bad := (← checkImplies impl "dndActive" act true "the do-not-disrupt annotation is active (spec)")
+    ++ (← checkImplies impl "dndActiveNilRecorder" act true "the do-not-disrupt annotation is active (spec)")
+    ++ (← checkImplies impl "disruptable" (running p && act) false "the pod is running with an active do-not-disrupt annotation (spec)")
+    ++ (← checkImplies impl "evictable" (wouldEvict now p) true "the drain would evict the pod, so its PDB counts (spec)")
+    ++ (← checkImplies impl "reschedulable" (mustMove p) true "the pod would have to move, so the node is not empty (spec)")
+    ++ (← checkImplies impl "costPositive" (contributes p) true "the pod contributes disruption cost, so the node is not empty (spec)")
+  pure { model := some model, spec := some bad.isEmpty, why := "; ".intercalate bad }
+
+open Karp.Spec.Protected in
+def pdbOp (inp impl : Json) : Except String Resp := do
+  let now ← intF inp "now"
+  let pods ← (← arrD inp "pods").mapM parsePod
+  let pdbs ← (← arrD inp "pdbs").mapM parsePdb
+  let r := canEvictPods now pdbs pods
+  let refused := pods.any (fun p => wouldEvict now p && evictionRefused pdbs p)
+  let bad ← checkImplies impl "ok" refused false "a PDB refuses the eviction of one of the pods (spec)"
+  pure { model := some (jObj [("ok", jBool r.2), ("keys", jNat r.1)]), spec := some bad.isEmpty, why := "; ".intercalate bad }
+
+open Karp.Spec.Protected in
+def consolidatableOp (inp impl : Json) : Except String Resp := do
+  let now ← intF inp "now"
+  let pool ← parsePool (← fld inp "pool")
+  let c ← parseClaim (← fld inp "claim")
+  let after := reconcileClaim pool c now
+  let got ← strD impl "consolidatable"
+  -- safety: True may only be the result when the window has elapsed (or the controller had no say and it was True before)
+  let ran := !c.deleting && c.md.pool == .this && pool.present && !pool.static
+  let bad :=
+    if got == "True" && ran && !mayBeConsolidatable pool c now then
+      ["Consolidatable=True although consolidateAfter has not elapsed since the last pod event / the NodeClaim is not initialized / consolidation is disabled"]
+    else if got == "True" && !ran && c.consolidatable != .true_ then
+      ["Consolidatable=True appeared on a NodeClaim the sub-reconciler must not touch"]
+    else []
+  pure { model := some (jObj [("consolidatable", jStr (condStr after.consolidatable))]),
+         spec := some bad.isEmpty, why := "; ".intercalate bad }
+
+/-! ## c07.controller (relational) -/
+
+def parseMethod (s : String) : Except String Method :=
+  match Method.all.find? (fun m => m.name == s) with
+  | some m => pure m
+  | none => throw s!"unknown method {s}"
+
+open Karp.Spec.Protected in
+def controllerOp (inp impl : Json) : Except String Resp := do
+  let now ← intF inp "now"
+  let batchMax ← intF inp "batchMax"
+  let m ← parseMethod (← strF inp "method")
+  let pool ← parsePool (← fld inp "pool")
+  let pdbs ← (← arrD inp "pdbs").mapM parsePdb
+  let worlds ← (← arrF inp "nodes").mapM (fun j => do
+    let w : World :=
+      { now := now, batchMax := batchMax, claim := ← optObj j "claim" parseClaim, node := ← optObj j "node" parseNode,
+        marked := ← boolD j "marked" false, nominatedAt := ← intO j "nominatedAt", inQueue := ← boolD j "inQueue" false,
+        buffer := (← natO j "buffer").getD 0, pool := pool, pods := ← (← arrD j "pods").mapM parsePod, pdbs := pdbs }
+    pure w)
+  let cands ← match fldOpt impl "cands" with
+    | some v => natList v
+    | none => throw "implementation produced no candidate list"
+  -- the change that arrived during the validation delay (if the controller waited at all)
+  let injected ← boolD impl "injected" false
+  let inj : Option (Nat × String) ← match fldOpt inp "inject" with
+    | some j => do pure (some ((← natF j "node"), (← strF j "kind")))
+    | none => pure none
+  let injPod (dnd : Ann) (ns : Nat) (app : Option Nat) : Pod :=
+    { onNode := true, ns := ns, app := app, terminal := false, terminating := false, daemon := true, mirror := false,
+      sts := false, tol := .none, dnd := dnd, start := some (floorSec now), notReady := false, delCost := none, prio := none }
+  let after (i : Nat) (w : World) : Except String World :=
+    match inj with
+    | some (k, kind) =>
+      if !injected then pure w
+      else match kind with
+        | "pod-dnd" => pure (if k == i then { w with pods := w.pods ++ [injPod .true_ 0 none] } else w)
+        | "pdb-pod" =>
+          -- the PDB is cluster wide; the pod it selects is on node k only
+          let w' := { w with pdbs := w.pdbs ++ [{ ns := 5, sel := .app 9, allowed := 0, alwaysAllow := false }] }
+          pure (if k == i then { w' with pods := w'.pods ++ [injPod .none 5 (some 9)] } else w')
+        | "mark" => pure (if k == i then { w with marked := true } else w)
+        | "node-dnd" =>
+          pure (if k == i then { w with node := w.node.map (fun n => { n with md := { n.md with dnd := .true_ } }) } else w)
+        | other => throw s!"bad injection {other}"
+    | none => pure w
+  let mut notSelected : List String := []
+  let mut notAllowed : List String := []
+  for i in cands do
+    match worlds[i]? with
+    | none => notSelected := notSelected ++ [s!"node {i} does not exist"]
+    | some w0 =>
+      for (w, whenTxt) in [(w0, "when the reconcile began"), (← after i w0, "after the change that arrived during validation")] do
+        if !selected w m then
+          notSelected := notSelected ++ [s!"node {i} is in a {m.name} command but the model does not select it {whenTxt}"]
+        if wellFormed w && !allowed w m then
+          notAllowed := notAllowed ++ [s!"node {i} is a candidate of a {m.name} command although it is protected or ineligible {whenTxt} (nodeLevel={nodeLevelBlocker w} podLevel={podLevelBlocker w} override={mayOverride w m} consolidationOk={consolidationOk w m})"]
+  let sel := (List.range worlds.length).filter (fun i => match worlds[i]? with | some w => selected w m | none => false)
+  pure { allowed := some notSelected.isEmpty, spec := some notAllowed.isEmpty,
+         why := "; ".intercalate (notAllowed ++ notSelected),
+         extra := some (jObj [("modelSelected", jArr (sel.map jNat))]) }
+
+def handle : Handler := fun op inp impl =>
+  match op with
+  | "c07.candidate" => candidate inp impl
+  | "c07.history" => history inp impl
+  | "c07.pod" => podOp inp impl
+  | "c07.pdb" => pdbOp inp impl
+  | "c07.consolidatable" => consolidatableOp inp impl
+  | "c07.controller" => controllerOp inp impl
+  | _ => .error s!"unknown op {op}"
 
 end Karp.Driver.C07
